@@ -1,7 +1,7 @@
 """C13 - editing a model invalidates everything derived from the old model.
 
 Small-scope exhaustive histories: ALL operation sequences up to a length bound
-over an alphabet of 22 operations chosen to cross every cache boundary
+over an alphabet of 26 operations chosen to cross every cache boundary
 (LP objective <-> quadratic objective, flip sense, add linear / nonlinear
 constraint, add a list of constraints introducing a new variable, tighten /
 change a bound, solve with auto / SLSQP / trust-constr / linprog / BFGS (a method that ignores bounds), read
@@ -94,8 +94,9 @@ BASES["degenerate-lp"] = {
     "bvar": "a",
 }
 OPS = ["min-lin", "min-quad", "min-small", "max", "max-lin", "flip-same-object", "add-lin", "add-list", "add-nl", "add-mixed-list", "add-list-with-invalid-entry", "tighten", "rebound", "solve-auto", "solve-SLSQP",
-       "solve-trust-constr", "solve-linprog", "solve-BFGS", "solve-Nelder-Mead", "solve-COBYLA", "noop", "read"]
-OBS = {"solve-auto", "solve-SLSQP", "solve-trust-constr", "solve-linprog", "solve-BFGS", "solve-Nelder-Mead", "solve-COBYLA", "read"}
+       "solve-trust-constr", "solve-linprog", "solve-BFGS", "solve-Nelder-Mead", "solve-COBYLA", "solve-SLSQP-maxiter2", "noop", "reject-maximize", "reject-minimize",
+       "reject-subject_to", "read"]
+OBS = {"solve-auto", "solve-SLSQP", "solve-trust-constr", "solve-linprog", "solve-BFGS", "solve-Nelder-Mead", "solve-COBYLA", "solve-SLSQP-maxiter2", "read"}
 
 
 def info(tier):
@@ -183,6 +184,19 @@ def apply(op, M, P, b):
             raise RuntimeError("unexpected number of constraints after a failed subject_to")
     elif op == "noop":
         pass  # nothing is edited: two observations in a row (solve m1 ; solve m2) must each equal the fresh problem's
+    elif op in ("reject-maximize", "reject-minimize", "reject-subject_to"):
+        # an edit the API rejects (a VectorVariable passed as objective, a string as constraint): the model is what it was
+        try:
+            if op == "reject-subject_to":
+                P.subject_to("x <= 1")
+            else:
+                bad_arg = b.variables([base["bvar"]]) if base["decls"][0]["k"] == "var" else b.env[base["decls"][0]["name"]]
+                (P.maximize if op == "reject-maximize" else P.minimize)(bad_arg if not isinstance(bad_arg, list) else None)
+            raise RuntimeError("the invalid edit was accepted")
+        except RuntimeError:
+            raise
+        except Exception:
+            pass
     elif op == "add-nl":
         M.constraints.append(base["c_nl"])
         P.subject_to(b.rel(base["c_nl"]))
@@ -202,6 +216,8 @@ def observe_real(op, P):
         return {"variables": [v.name for v in P.variables], "n": P.n_variables, "bounds": [list(t) for t in P.get_bounds()]}
     method = op[len("solve-"):]
     kw = {"maxiter": 300} if method == "trust-constr" else ({"maxiter": 150} if method in ("Nelder-Mead", "COBYLA") else {})
+    if method == "SLSQP-maxiter2":
+        method, kw = "SLSQP", {"maxiter": 2}  # a cheap probe with its own option: the option belongs to this call only
     try:
         with warnings.catch_warnings():
             warnings.simplefilter("ignore")
@@ -223,6 +239,8 @@ def observe_twin(op, M, twin):
         method = op[len("solve-"):]
         job["method"] = method
         job["kwargs"] = {"maxiter": 300} if method == "trust-constr" else ({"maxiter": 150} if method in ("Nelder-Mead", "COBYLA") else {})
+        if method == "SLSQP-maxiter2":
+            job["method"], job["kwargs"] = "SLSQP", {"maxiter": 2}
     return twin.call(job)
 
 
@@ -338,16 +356,19 @@ def run(ctx, rec):
         # derivative-free, gradient-based, LP - the second by another kind
         for base in BASES:
             for obj in ("min-lin", "max-lin", "max", "min-quad"):
-                for m1 in ("solve-Nelder-Mead", "solve-COBYLA", "solve-SLSQP", "solve-auto", "solve-linprog"):
+                for m1 in ("solve-Nelder-Mead", "solve-COBYLA", "solve-SLSQP", "solve-auto", "solve-linprog", "solve-SLSQP-maxiter2"):
                     for last in ("solve-auto", "solve-SLSQP", "solve-trust-constr"):
-                        i += 1
-                        if not ctx.mine(i):
-                            continue
-                        if rec.out_of_time():
-                            rec.inconclusive.append("time budget reached before the two-solve crossings were finished")
-                            return
-                        run_sequence(rec, base, [obj, "add-lin", m1, "noop", last], twin)
-                        rec.cmp(1, "history:two-solves-without-an-edit")
+                        for mid in ("noop", "reject-maximize", "reject-minimize", "reject-subject_to"):
+                            i += 1
+                            if not ctx.mine(i):
+                                continue
+                            if ctx.tier == "quick" and mid != "noop" and (i // 16 + ctx.seed) % 2:
+                                continue
+                            if rec.out_of_time():
+                                rec.inconclusive.append("time budget reached before the two-solve crossings were finished")
+                                return
+                            run_sequence(rec, base, [obj, "add-lin", m1, mid, last], twin)
+                            rec.cmp(1, "history:two-solves-without-an-edit")
         # cache-boundary crossings (length 4-5): objective ; [constraint] ; solve m1 ; edit ; observe
         edits = [o for o in OPS if o not in OBS]
         solves = [o for o in OPS if o.startswith("solve")]
